@@ -1,5 +1,7 @@
+mod a2lgen;
 mod c12;
 mod c13;
+mod c17;
 mod common;
 
 use common::Args;
@@ -45,6 +47,7 @@ fn main() {
     let report = match prop.as_str() {
         "C12" => c12::run(&args),
         "C13" => c13::run(&args),
+        "C17" => c17::run(&args),
         _ => {
             eprintln!("unknown property {prop}");
             std::process::exit(2);
